@@ -15,7 +15,7 @@ def _run(seed):
     rng = random.Random(seed)
     fine = seed % 8 == 2          # a fine tick grid: level * tick is not exactly representable, quotients k*tick/tick may differ from k in floating point
     tick = rng.choice([0.01, 0.1, 1e-5]) if fine else 1.0
-    base = int(round(300.0 / tick))
+    base = int(round(300.0 / tick)) + (rng.randint(-500, 500) if fine else 0)      # the levels whose quotient is off by one ulp are a few percent of all levels: move the window around
     m = drivers.mk_market(tick=tick, price=300.0) if fine else drivers.mk_market()
     continuous = seed % 4 == 0        # otherwise the book accumulates (possibly crossed, possibly with market orders on both tops) and is matched at the end and after clock ticks
     m._is_running = continuous
